@@ -18,6 +18,9 @@ type Prop struct {
 	// RaceScenarios are the scenario bodies re-run free-running under -race (the only sampled
 	// ingredient; reported separately in evidence).
 	RaceScenarios func(thorough bool) []*explore.Scenario
+	// Sharded properties are explored by NumCPU single-threaded worker processes (token passing
+	// between goroutines scales badly across OS threads).
+	Sharded bool
 }
 
 var registry = map[string]*Prop{}
